@@ -3,9 +3,9 @@
 use crate::http::response::ResponseError;
 use crate::http::{Request, Response, StatusCode};
 
-use std::io::Write;
+use std::io::{self, ErrorKind, Read, Write};
 use std::net::{SocketAddr, TcpStream};
-use std::time::Duration;
+use std::time::{Duration, Instant};
 
 /// Proxies a request to the given target, timing out and returning an error 502 after `timeout`.
 /// Always returns a response.
@@ -22,8 +22,13 @@ fn proxy_request_internal(
     target: SocketAddr,
     timeout: Duration,
 ) -> Result<Response, ResponseError> {
-    let mut stream =
+    // The timeout covers the whole exchange (connecting, sending the request and reading the
+    // response), so a target which accepts the connection and then stalls cannot block forever.
+    let deadline = Instant::now() + timeout;
+
+    let stream =
         TcpStream::connect_timeout(&target, timeout).map_err(|_| ResponseError::Stream)?;
+    let mut stream = DeadlineStream { stream, deadline };
 
     let mut cloned_request = request.clone();
     cloned_request
@@ -35,4 +40,38 @@ fn proxy_request_internal(
         .map_err(|_| ResponseError::Stream)?;
 
     Response::from_stream(&mut stream)
+}
+
+/// A TCP stream whose reads and writes fail with `ErrorKind::TimedOut` once the deadline has passed.
+struct DeadlineStream {
+    stream: TcpStream,
+    deadline: Instant,
+}
+
+impl DeadlineStream {
+    /// Returns the time left until the deadline, or an error if it has already passed.
+    fn remaining(&self) -> io::Result<Duration> {
+        self.deadline
+            .checked_duration_since(Instant::now())
+            .filter(|remaining| !remaining.is_zero())
+            .ok_or_else(|| io::Error::new(ErrorKind::TimedOut, "proxy target timed out"))
+    }
+}
+
+impl Read for DeadlineStream {
+    fn read(&mut self, buf: &mut [u8]) -> io::Result<usize> {
+        self.stream.set_read_timeout(Some(self.remaining()?))?;
+        self.stream.read(buf)
+    }
+}
+
+impl Write for DeadlineStream {
+    fn write(&mut self, buf: &[u8]) -> io::Result<usize> {
+        self.stream.set_write_timeout(Some(self.remaining()?))?;
+        self.stream.write(buf)
+    }
+
+    fn flush(&mut self) -> io::Result<()> {
+        self.stream.flush()
+    }
 }
